@@ -680,6 +680,43 @@ def wave9_rules(ctx):
                                   witness=None if verdict is not False else "{{ [ , b] }}: `b` sits at index 1 of the value but at index 0 of the path list, a change of `b` updates nothing"))
     if k < 3:
         obs.append(ob("C06.floor/array-positions", False, "proc_gen/expr.rs", "only %d element kinds of an array literal found (floor 3)" % k))
+    # (2b) whether a sub-tree wrote anything is asked before its buffer is pasted: a buffer handed to the tree printer of a
+    #      PathAnalysisState (which writes nothing for NotInPath and says so in its result) is only pasted where that result
+    #      is known to be positive
+    import guards as G2
+    n_b, bad_b = 0, []
+    for f in tc.fns:
+        if not f.body or f.module[:2] != ["proc_gen", "expr"]:
+            continue
+        gs = None
+        for blk in sir.walk(f.body):
+            if blk.get("k") != "block":
+                continue
+            for i_, st in enumerate(blk["stmts"]):
+                c = st.get("init") if st.get("k") == "local" else (st.get("e") if st.get("k") == "expr" else None)
+                res_name = st["pat"].get("name") if st.get("k") == "local" and st["pat"].get("k") == "p_ident" else None
+                while c is not None and c.get("k") == "try":
+                    c = c["e"]
+                if not (c is not None and c.get("k") == "mcall" and c["m"] == "to_path_analysis_str" and len(c["args"]) == 4):
+                    continue
+                a1 = c["args"][1]
+                if not (a1.get("k") == "ref" and a1.get("mut") and a1["e"].get("k") == "path" and len(a1["e"]["segs"]) == 1):
+                    continue
+                buf = a1["e"]["segs"][0]
+                if buf in [x for x in f.param_names() if x]:
+                    continue   # written straight into the caller's text: the caller asks
+                gs = gs or G2.guards_of(f.body)
+                for later in blk["stmts"][i_ + 1:]:
+                    for w_ in sir.walk(later):
+                        wf = sir.write_fmt_call(w_)
+                        if not wf or not any(p_[0] == "hole" and isinstance(p_[1], dict) and sir.expr_str(sir.strip_ref(p_[1])) == buf for p_ in wf[1]):
+                            continue
+                        n_b += 1
+                        asked = res_name is not None and any(res_name in (sir.expr_str(sj) if kd == "cond" else sir.expr_str(sj[0])) for kd, sj, pl in gs.get(id(w_), []))
+                        if not asked:
+                            bad_b.append("%s pastes `%s` without asking whether anything was written into it" % (f.name, buf))
+    obs.append(ob("C06.runtime/tree-tokens/written-asked", False if bad_b else True if n_b >= 3 else None, "proc_gen/expr.rs", "; ".join(sorted(set(bad_b))[:2]) if bad_b else "%d pasted sub-tree buffers, each under a test of the printer's result" % n_b,
+                  witness=None if not bad_b else "{{ [...list, 0] }} emits `()!==undefined||`: a syntax error"))
     # (3) dynamic-include bookkeeping and the value visit of the analysis pass decide which bindings are recorded at all
     #     (shared with C07.dynamic / C07.values)
     from rules.c07 import dynamic_rule, values_rule
